@@ -750,6 +750,10 @@ def run(ctx):
              floor=6)
     for fam in SA:
         r8_reason(ctx, fam)
+    ctx.rule('C03.R5', 'a disconnected sid is in no room: basic_disconnect '
+             'leaves every room that contains it (shared rule)', floor=5)
+    from .c03 import r5_lifecycle
+    r5_lifecycle(ctx)
     ctx.assume('engine.io generate_id() returns fresh ids (sid freshness is '
                'NOT decided)')
     ctx.assume('asyncio: tasks interleave only at suspension points; an '
